@@ -8,8 +8,8 @@ Generic over the scalars `α` and over the state space `V` (given by its operati
 driver instantiates `V` with lists of rationals, the theorems with an arbitrary module.
 
 Mirrored peculiarities of the code:
-* the stage sum runs only over the coefficients that are non-zero (`stage_coeffs != 0.0`), or over
-  all of them when the whole row is zero;
+* the stage sum runs only over the coefficients that are non-zero (`stage_coeffs != 0.0`); a row without
+  coefficients gives zero and does not read the stage storage (fix P41);
 * input and output stage storage are the same array: a stage sees the stages already computed in
   this pass and, for `j ≥ i`, whatever the previous step left there;
 * an explicit FSAL table returns the last stage's partial sum as the increment and the last stage's
@@ -31,8 +31,8 @@ def wsum (ops : VOps α V) (coeffs : List α) (ks : List V) : V :=
 
 /-- the masked sum of `compute_step` -/
 def maskedSum (ops : VOps α V) (coeffs : List α) (ks : List V) : V :=
-  let anyNz := coeffs.any (fun a => !(a == Lit.lit 0))
-  (List.zip coeffs ks).foldl (fun acc p => if !anyNz || !(p.1 == Lit.lit 0) then ops.add acc (ops.smul p.1 p.2) else acc) ops.zero
+  -- since fix P41 a row without coefficients gives zero without touching the stage storage (it used to sum everything times zero)
+  (List.zip coeffs ks).foldl (fun acc p => if !(p.1 == Lit.lit 0) then ops.add acc (ops.smul p.1 p.2) else acc) ops.zero
 
 structure StageState (V : Type) where
   stages : List V
